@@ -95,7 +95,7 @@ pub fn corpus() -> &'static Corpus {
     static C: OnceLock<Corpus> = OnceLock::new();
     C.get_or_init(|| {
         let mut paths = Vec::new();
-        walk(std::path::Path::new("/repo"), &mut paths);
+        walk(&crate::engine::repo_root(), &mut paths);
         let mut files = Vec::new();
         let mut vocab: Vec<String> = HAND_VOCAB.iter().map(|s| s.to_string()).collect();
         let mut seen: std::collections::HashSet<String> = vocab.iter().cloned().collect();
